@@ -41,6 +41,18 @@ CLAIMED = {
  "C20": ("reference-model + relational-law monitor over all pairs/triples of a value pool",
          "All ordered pairs of a 64-value pool through ==, !=, contains, filter equality and container wrappers (literal and document routes) against deep type-strict model equality with reflexivity, symmetry, negation; all triples for transitivity (thorough); every value pair through !, &&, ||, filter predicates against the single false-like set, && and || returning an operand unchanged; random nested values with controlled perturbations.",
          "Numbers compared exactly as rationals; values beyond 34 digits are not in the pool.", "§6 C20"),
+ "C14": ("metamorphic monitor: outcome invariance under re-typing of number leaves, library against itself",
+         "For documents of dyadic rationals (exact in every Go numeric kind) and 100 templates plus random expressions, the outcome with all leaves as canonical json.Number is compared with the outcomes under 6 random assignments of Go kinds and json.Number spellings per case; a boundary stream does the same for large integral values (2^31..2^64, 2^100) in every kind that holds them exactly.",
+         "The precondition (every intermediate value exactly representable in each kind) is enforced by construction: dyadic leaves, no general division.", "§6 C14"),
+ "C16": ("direct-oracle monitor over exhaustive short strings through every literal syntax",
+         "Every string of length <= 3/4 over a 24-symbol hostile alphabet, a boundary set of code points and seeded long strings are written as raw strings, JSON literals (4 encodings) and quoted identifiers (as field and as multi-select key) and must decode to themselves; generated JSON values in random layouts between backticks must evaluate to themselves with numbers at full precision.",
+         "The encoders are written from the grammar by the harness; the generator knows each expected value by construction.", "§6 C16"),
+ "C18": ("domain-walk invariant + metamorphic re-query monitor, library against itself",
+         "Every result of value-constructing expressions is walked for non-JSON dynamic types, typed nils and non-finite numbers, serialised and decoded (views must agree), and re-queried: Search(e2, r1) and Search(e2, JSON round trip of r1) must equal Search('(e1) | e2', doc) for e2 from a 59-expression panel.",
+         "to_string is excluded from the comparison after the JSON round trip (number spellings may differ); order-dependent enumerations are skipped when the model does not judge them.", "§6 C18"),
+ "C19": ("reference-model monitor with unique-tag bindings",
+         "45 canonical scope shapes and seeded random nestings (depth 3-4) bind unique tagged literals or the id of the current node, so each result identifies the binding and the context that were captured; every outcome is compared with the reference model's lexical environments, incl. undefined-variable errors only where the reference is evaluated.",
+         "Trusts the reference model's environments (50 lines); calibrated on letexpr.json.", "§6 C19"),
 }
 
 ALL = ["C%02d" % i for i in range(1, 21)]
